@@ -195,6 +195,38 @@ def cases(r):
             yield body, e, dict(r, mac="min!/max!/%s" % ty)
 
 
+def side_effect_cases():
+    """Argument expressions with side effects: the macro must evaluate each argument exactly once, like the call of
+    the std function (an argument evaluated twice can make the macro return a value std would not)."""
+    out = []
+    # values independent of the evaluation order (the property does not fix it: max!/max_by_key! evaluate right to left)
+    exprs = "{ n += 1; 10u32 }, { n += 1; 23u32 }"
+    for mac, stdf, extra_k, extra_s in (
+        ("min", "std::cmp::min", "", ""), ("max", "std::cmp::max", "", ""),
+        ("min_by_key", "std::cmp::min_by_key", ", |x| *x % 7", ", |x| *x % 7"),
+        ("max_by_key", "std::cmp::max_by_key", ", |x| *x % 7", ", |x| *x % 7"),
+        ("min_by", "std::cmp::min_by", ", |a, b| konst::const_cmp!(*a, *b)", ", |a: &u32, b: &u32| a.cmp(b)"),
+        ("max_by", "std::cmp::max_by", ", |a, b| konst::const_cmp!(*a, *b)", ", |a: &u32, b: &u32| a.cmp(b)"),
+    ):
+        body = ("let mut n = 0u32; let k = konst::%s!(%s%s); let kn = n; let mut n = 0u32; let s = %s(%s%s); "
+                "format!(\"{} {} {} {}\", k, kn, s, n)" % (mac, exprs, extra_k, stdf, exprs, extra_s))
+        want = {"min": 10, "max": 23, "min_by_key": 23, "max_by_key": 10, "min_by": 10, "max_by": 23}[mac]
+        out.append((body, "%d 2 %d 2" % (want, want), {"m": "OptRes", "mac": "%s!(side-effecting arguments)" % mac}))
+    for fam, mac, recv, rest, stdcall, want in (
+        ("option", "map", "{ n += 1; Some(n) }", ", |x| x + 1", ".map(|x| x + 1)", "Some(2) 1"),
+        ("option", "unwrap_or", "{ n += 1; Some(n) }", ", 9", ".unwrap_or(9)", "1 1"),
+        ("option", "and_then", "{ n += 1; Some(n) }", ", |x| Some(x + 1)", ".and_then(|x| Some(x + 1))", "Some(2) 1"),
+        ("option", "filter", "{ n += 1; Some(n) }", ", |x| *x == 1", ".filter(|x| *x == 1)", "Some(1) 1"),
+        ("result", "map", "{ n += 1; Ok::<u32, u32>(n) }", ", |x| x + 1", ".map(|x| x + 1)", "Ok(2) 1"),
+        ("result", "map_err", "{ n += 1; Err::<u32, u32>(n) }", ", |x| x + 1", ".map_err(|x| x + 1)", "Err(2) 1"),
+        ("result", "unwrap_or", "{ n += 1; Err::<u32, u32>(n) }", ", 9", ".unwrap_or(9)", "9 1"),
+    ):
+        body = ("let mut n = 0u32; let k = konst::%s::%s!(%s%s); let kn = n; let mut n = 0u32; let s = (%s)%s; "
+                "format!(\"{:?} {} {:?} {}\", k, kn, s, n)" % (fam, mac, recv, rest, recv, stdcall))
+        out.append((body, "%s %s" % (want, want), {"m": "OptRes", "mac": "%s::%s!(side-effecting receiver)" % (fam, mac)}))
+    return out
+
+
 def try_cases():
     out = []
     for v in ("Ok::<u32, u8>(5)", "Err::<u32, u8>(9)"):
